@@ -37,7 +37,8 @@ LEVEL_TEXT = ("Emitters are enumerated by introspection of the package; each is 
               ' Also every notification sender called for all its argument variants in a row on one write stream, the messages taken off only afterwards (an emitted message must not change after it was handed over), and a null _meta with a progress token.'
               ' Also wide, shallow payloads with hundreds of empty containers and a 100-level payload.'
               ' Also the stdio wire form of every message under each protocol version recorded on the client (none, 2024-11-05, 2025-03-26, 2025-06-18), bursts from several senders on one write stream, payloads with hundreds of empty containers.'
-              ' Also payloads nested 350 and 600 levels through every constructor.')
+              ' Also payloads nested 350 and 600 levels through every constructor.'
+              " Also payloads whose member names mean something to the implementation (meta, schema_, the envelope's own member names).")
 LEVEL_NOTE = ("Trusted: vf/ref.py validator; emitters that could not be driven are listed in evidence. id:null is tolerated "
               "only on the batch-rejection error (request id undeterminable).")
 RULE = ("case = (emitter, payload, id). Non-trivial: payload or id is not the trivial default; distinct = hash(emitter, "
